@@ -99,15 +99,20 @@ OBigOk(e) ==
                     ELSE cl[p + 1] = d
 
 \* ---- whole-sequence CGR (C11, C13)
+Pow2 == LET p[j \in 0..30] == IF j = 0 THEN 1 ELSE 2 * p[j-1] IN p
+MinOf(a, b) == IF a < b THEN a ELSE b
 \* integer formed by the corner bits of the 20 bases ending at position i, newest first (needs i >= 20)
 TopNum(cls, i, cf(_)) == LET v[j \in 0..20] == IF j = 0 THEN 0 ELSE 2 * v[j-1] + cf(cls[i + 1 - j]) IN v[20]
+BitLen(x) == CHOOSE b \in 1..31 : (b = 1 \/ x >= Pow2[b - 1]) /\ (b = 31 \/ x < Pow2[b])
 CgrOk(e) ==
   LET cls == Classes(e.bytes)
       n == Len(cls)
       bad == \E i \in 1..n : cls[i] = Ambig
   IN IF bad THEN e.err = 1 /\ e.npts = 0 /\ e.nexact = 0 /\ e.pts = <<>> /\ e.tops = <<>>
      ELSE /\ e.err = 0 /\ e.npts = n
-          /\ e.nexact = (IF n < 29 THEN n ELSE 29)
+          \* the exact phase: 29 points (numerators below 2^31 for TLC), fewer where size * numerator would not fit a
+          \* double's 53 bits: bitlen(size) + i + 1 <= 53
+          /\ e.nexact = MinOf(n, MinOf(29, 52 - BitLen(e.s)))
           /\ Len(e.pts) = 2 * e.nexact
           /\ \A i \in 1..e.nexact : /\ e.pts[2 * i - 1] = Num(PathOf(cls, i, CornerX))
                                     /\ e.pts[2 * i]     = Num(PathOf(cls, i, CornerY))
@@ -154,7 +159,6 @@ CtrBigOk(e) ==
 
 \* coverage rows (C08) of records given by run lengths, counted against the same file: entry b of row i is the number of
 \* windows of record i whose canonical k-mer occurs c times in the whole input with min(c div bs, bc - 1) = b
-MinOf(a, b) == IF a < b THEN a ELSE b
 CovBigOk(e) ==
   /\ \A i \in 1..Len(e.recs) : RleOk(e.recs[i], e.k)
   /\ Len(e.rows) = Len(e.recs)
